@@ -1,0 +1,53 @@
+//go:build verif
+
+package cli
+
+import (
+	"encoding/json"
+	"io"
+)
+
+// VerifRunC17 runs the gojq command in-process on the given streams (verification hook, C17).
+// Whether the input is treated as seekable is decided by newInputReader exactly as for os.Stdin:
+// pass an io.ReadSeeker for the file path, a plain io.Reader for the pipe path.
+func VerifRunC17(args []string, stdin io.Reader, stdout, stderr io.Writer) int {
+	return (&cli{inStream: stdin, outStream: stdout, errStream: stderr}).run(args)
+}
+
+// VerifGetLineByOffset exposes getLineByOffset (verification hook, C17).
+func VerifGetLineByOffset(str string, offset int) (linestr string, line, column int) {
+	return getLineByOffset(str, offset)
+}
+
+// VerifC17Trace drives the command's JSON input iterator (the --stream one when stream is set) over r
+// and calls f after every Next with the window bookkeeping of jsonInputIter: the decoder position
+// (dec.InputOffset), i.offset and i.line.  For the final parse error done is true and rawErrOffset is
+// the offset encoding/json reported (SyntaxError.Offset before rebasing; -1 for other errors; only
+// meaningful for a non-seekable r, getContents rewrites the offset of a seekable one).
+func VerifC17Trace(r io.Reader, stream bool, f func(done bool, pos, offset int64, line int, rawErrOffset int64)) {
+	var it inputIter
+	if stream {
+		it = newStreamInputIter(r, "<stdin>")
+	} else {
+		it = newJSONInputIter(r, "<stdin>")
+	}
+	ji := it.(*jsonInputIter)
+	for {
+		before := ji.offset
+		v, ok := ji.Next()
+		if !ok {
+			return
+		}
+		if err, isErr := v.(error); isErr {
+			raw := int64(-1)
+			if pe, ok := err.(*jsonParseError); ok {
+				if se, ok := pe.err.(*json.SyntaxError); ok {
+					raw = se.Offset + before
+				}
+			}
+			f(true, ji.pos(), ji.offset, ji.line, raw)
+			return
+		}
+		f(false, ji.pos(), ji.offset, ji.line, -1)
+	}
+}
